@@ -883,8 +883,9 @@ def vec_store(M, interp, t, key, v, node):
     n = len(t)
     live = interp.live
     owner = t.back.owner
+    mut_event = None
     if owner is not None:
-        interp.event('mutation', owner=owner, what='array element store', node=node)
+        mut_event = interp.event('mutation', owner=owner, what='array element store', node=node, changed=False)
     if getattr(t.back, 'readonly', False) or getattr(t, 'ro', False):
         raise AbsRaise(ExcVal('ValueError', ('assignment destination is read-only',)), node)
 
@@ -896,6 +897,8 @@ def vec_store(M, interp, t, key, v, node):
             # masked array's buffer (np.asarray(ma), ma.data) writes data and leaves the owner's mask alone
             e = El(e.d, old.m)
         g = X.f_and(live, cond)
+        if mut_event is not None and g != X.FALSE and (e.d != old.d or e.m != old.m):
+            mut_event['changed'] = True
         if g == X.TRUE:
             t.set(pos, e)
         elif g == X.FALSE:
